@@ -517,6 +517,9 @@ class P14(SessionPlan):
             "refused": [("build", 0), ("connect", 0, True, 0, 4), ("connack", 0, 2, False)],
             "lost": connected() + [("pub", 0, 1), ("lose", 0, "done")],
             "lost-fresh": [("build", 0), ("lose", 0, "lost")],
+            # the same protocol object connected again after a loss (S175): its profile must still hold
+            "again-connecting": connected() + [("lose", 0, "lost"), ("adv", 1), ("reuse", 0), ("connect", 0, True, 0, 4)],
+            "again-connected": connected() + [("pub", 0, 1), ("lose", 0, "done"), ("adv", 1), ("reuse", 0), ("connect", 0, True, 0, 4), ("connack", 0, 0, False)],
         }
         for prof in ("pub", "sub", "pubsub"):
             for model in MODELS:
